@@ -81,4 +81,19 @@ func propC07(w *World, r *Report) {
 	runLoopTerm(w, r, br, fns, false)
 	r.Floor("bounds", 200)
 	r.Floor("loopterm", 50)
+
+	// history independence of what the Context keeps between calls, and of
+	// per-iteration buffers (text conservation): the cache and buffer rules of C06
+	var gt []*ssa.Function
+	for _, f := range w.LibFuncs() {
+		if strings.HasSuffix(fnPkgPath(f), "/opentype/gtab") {
+			gt = append(gt, f)
+		}
+	}
+	RunMemoKey(w, r, gt)
+	RunReuseKey(w, r, gt)
+	RunIterFresh(w, r, gt)
+	r.Floor("iterfresh", 3)
+	RunControl(r, "reusekey", "ctlContext).reuse", RunReuseKey)
+	RunControl(r, "memokey", "ctlContext).filter", RunMemoKey)
 }
